@@ -602,3 +602,28 @@ func summarize(ops []plan.Op, n int) []string {
 	}
 	return out
 }
+
+// runHistories executes n memo-hunting call sequences (each in its own fresh
+// process) and hands every sequence with its results to judge. It is the shared
+// "history" workload of the per-function monitors; C13 judges the same sequences
+// against the full reference model and solo executions.
+func (e *Env) runHistories(drv, label string, n, rounds int, judge func(ops []plan.Op, res []plan.Res)) int {
+	var mu sync.Mutex
+	calls := 0
+	parallel(n, e.Workers, func(h int) {
+		g := &seqGen{e: e, r: rng.New(e.Seed, label+"-hist-"+itoa(h)), bufs: map[int][]byte{}}
+		g.memoHunt(rounds)
+		res, died := e.RunProc(drv, g.ops, nil, 0)
+		if died != "" {
+			e.Violate(&Violation{What: "a sequence of calls killed the process: " + oneLine(died, 300), Ops: g.ops[:min(len(res)+1, len(g.ops))]})
+			return
+		}
+		mu.Lock()
+		calls += len(res)
+		mu.Unlock()
+		judge(g.ops, res)
+	})
+	return calls
+}
+
+const historyNote = "the failing call is the last of ops; the preceding ones are its history"
